@@ -50,7 +50,11 @@ func newArrayWithParser(parser *Parser) (*Array, error) {
 	}
 
 	// Gets all array messages
-	msgs := make([]*Message, 0, min(arraySize, maxPreallocSize))
+	// Nothing but a small capacity is allocated in advance for the declared size: it is not
+	// trusted, and every level of a nested array could declare a large size without sending
+	// the elements (1 MiB of nested "*65536" headers reserved 64 GiB). The slice grows as the
+	// elements really arrive.
+	msgs := make([]*Message, 0, min(arraySize, maxArrayPreallocSize))
 	for n := 0; n < arraySize; n++ {
 		msg, err := parser.Next()
 		if err != nil {
